@@ -16,6 +16,11 @@ pub type Src<T> = Arc<Source<T>>;
 pub const MAX_MSGS: usize = 96;
 
 pub const UNBOUNDED_LIMIT: u32 = 5_000;
+/// upper bound on the events of one scenario (the largest scenarios of the unchanged tree stay far below)
+pub const HISTORY_CAP: usize = 300_000;
+pub const HISTORY_OVERFLOW_MSG: &str = "harness: history overflow";
+/// panic payload used to unwind out of a runaway scenario
+pub struct HistoryOverflow;
 
 pub const ERR_NURSE_SPAWN: u32 = u32::MAX - 1;
 pub const ERR_NURSE_CLOSED: u32 = u32::MAX - 2;
@@ -164,6 +169,7 @@ pub struct Inner {
     pub cur_tag: u8,
     pub skipped_by_guard: u64,
     pub harness_errors: Vec<String>,
+    pub overflowed: bool,
     pub tap_subs: Vec<u16>,
     /// probe drivers by id (for cross-subscription actions)
     pub drivers: Vec<Option<Arc<dyn SinkDriver>>>,
@@ -202,6 +208,7 @@ impl World {
                 cur_tag: 0,
                 skipped_by_guard: 0,
                 harness_errors: vec![],
+                overflowed: false,
                 tap_subs: vec![0; 256],
                 drivers: vec![],
                 busy: vec![0; 8],
@@ -215,6 +222,16 @@ impl World {
     pub fn enter(&self, site: Site) -> usize {
         let mut g = self.lock();
         let idx = g.log.len();
+        if idx >= HISTORY_CAP {
+            // a scenario that does not stop producing events (never on the unchanged tree, whose scenarios are
+            // bounded by construction): unwind out of it; the oracles judge what was recorded
+            if !g.overflowed {
+                g.overflowed = true;
+                g.harness_errors.push(format!("history overflow: more than {HISTORY_CAP} events in one scenario"));
+            }
+            drop(g);
+            std::panic::panic_any(HistoryOverflow);
+        }
         g.log.push(Ev::Enter(site));
         g.stack.push(idx);
         idx
@@ -721,7 +738,7 @@ impl<T: ToVal + Send + Sync + 'static> Probe<T> {
                 let mut react = me.spec.react.get(ordinal).copied().unwrap_or(me.spec.react_default);
                 // a sink may stop asking at any time; this one does after MAX_MSGS messages, so that
                 // unbounded iterators cannot make a scenario diverge
-                if ordinal >= MAX_MSGS && matches!(react, React::Pull | React::Pull2 | React::PullTerminate | React::PullError) {
+                if ordinal >= MAX_MSGS && matches!(react, React::Pull | React::Pull2 | React::PullTerminate | React::PullError | React::PullAttach) {
                     react = React::Nothing;
                 }
                 match react {
@@ -764,6 +781,18 @@ impl<T: ToVal + Send + Sync + 'static> Probe<T> {
                     }
                     React::Reattach => {
                         me.world.attach_if_free(me.id as usize);
+                    }
+                    React::PullAttach => {
+                        me.do_send(sub, SendKind::Pull, true);
+                        // the Pull has returned; the end it may have caused has been delivered completely
+                        if !me.world.attach_if_free(me.id as usize) {
+                            let n = me.world.lock().drivers.len();
+                            for k in 0..n {
+                                if k != me.id as usize && me.world.attach_if_free(k) {
+                                    break;
+                                }
+                            }
+                        }
                     }
                     React::PullOther => {
                         // only while the other subscription is idle (nothing of its own on the stack), so
@@ -1266,6 +1295,8 @@ pub fn install_panic_hook() {
                 s.to_string()
             } else if let Some(s) = info.payload().downcast_ref::<String>() {
                 s.clone()
+            } else if info.payload().downcast_ref::<HistoryOverflow>().is_some() {
+                HISTORY_OVERFLOW_MSG.to_string()
             } else {
                 "<non-string panic>".to_string()
             };
@@ -1282,6 +1313,9 @@ pub fn take_last_panic() -> Option<(String, String)> {
 }
 
 pub fn payload_string(p: &Box<dyn Any + Send>) -> String {
+    if p.downcast_ref::<HistoryOverflow>().is_some() {
+        return HISTORY_OVERFLOW_MSG.to_string();
+    }
     if let Some(s) = p.downcast_ref::<&str>() {
         s.to_string()
     } else if let Some(s) = p.downcast_ref::<String>() {
